@@ -137,12 +137,12 @@ def c09(tier, seed):
             jobs.append(J('vh_c09_from_int', [0, (-2 ** 31) & 0xffffffff, 99999], 'from_int n in [-2^31, 10^5) (%s)' % prof, profile=prof, cost=500))
         else:
             jobs.append(J('vh_c09_from_int', [0, (-2 ** 31) & 0xffffffff, 9], 'from_int n in [-2^31, 10) (%s)' % prof, profile=prof, cost=100))
-            for k in range(2, 8):
+            for k in range(2, 7):
                 jobs.append(J('vh_c09_from_int', [0, 10 ** (k - 1), 10 ** k - 1], 'from_int n with %d digits (%s)' % (k, prof), profile=prof, cost=500 * k))
     return {'jobs': jobs,
             'bounds': 'order: three strings of lengths 0..%d, symbolic characters; str_to_int: every length 0..11, symbolic characters, in BOTH '
                       'build configurations (dev: overflow-checks on, rel: off); from_int: %s; codes: full i32 / alphabet' % (
-                          L, 'n in [-2^31, 10^5)' if tier == 'quick' else 'n in [-2^31, 10^7) split by digit count (the 8-10 digit case did not finish in the solver cap and is outside the claim)'),
+                          L, 'n in [-2^31, 10^5)' if tier == 'quick' else 'n in [-2^31, 10^6) split by digit count (7-10 digit values did not finish in the solver cap and are outside the claim)'),
             'outside': ['strings longer than 11 for str_to_int (they all overflow)', 'order on longer strings']}
 
 
